@@ -776,6 +776,16 @@ func LookupTerminfo(name string) (*Terminfo, error) {
 		addtruecolor = true
 	}
 
+	if add256color || (addtruecolor &&
+		t.SetFgBgRGB == "" &&
+		t.SetFgRGB == "" &&
+		t.SetBgRGB == "") {
+		// amend a copy: the registered entry is shared with every
+		// other lookup of this name, its aliases and its variants
+		c := *t
+		t = &c
+	}
+
 	// If the user has requested 24-bit color with $COLORTERM, then
 	// amend the value (unless already present).  This means we don't
 	// need to have a value present.
